@@ -75,6 +75,20 @@ impl Acc {
         }
     }
     pub fn violate(&mut self, order: u64, sig: String, detail: String, replay: Value) {
+        // witnesses of long inputs are cut for the report (the replay goes by site and index, not by the text)
+        fn cut(s: String, max: usize) -> String {
+            if s.chars().count() <= max { s } else { let n = s.chars().count(); format!("{} ... [{} characters in all]", s.chars().take(max).collect::<String>(), n) }
+        }
+        fn cut_json(v: Value) -> Value {
+            match v {
+                Value::String(s) => Value::String(cut(s, 600)),
+                Value::Array(a) => Value::Array(a.into_iter().map(cut_json).collect()),
+                Value::Object(o) => Value::Object(o.into_iter().map(|(k, v)| (k, cut_json(v))).collect()),
+                other => other,
+            }
+        }
+        let detail = cut(detail, 1500);
+        let replay = cut_json(replay);
         match self.viol.get(&sig) {
             Some(old) if old.order <= order => {},
             _ => {
